@@ -28,6 +28,7 @@ inductive Res
   | emit (turn j : Nat)
   | cast (turn : Nat)
   | wrapper                   -- the external-location pointer batch that replaces an uploaded result
+  | extin (turn : Nat)        -- the batch `ResolveExternalLocation` decoded with the framework allocator
   deriving DecidableEq, Repr
 
 inductive Ev
@@ -70,12 +71,21 @@ inductive Wire
 inductive End | ok | err | panic | fin | cancel
   deriving DecidableEq, Repr
 
+/-- How an external-location input pointer resolves: there is none; the fetched object yields a
+data batch (good object, good batch followed by a damaged tail, log + data, several data batches:
+the last one, the earlier ones released); the resolution fails (checksum mismatch, nested pointer,
+no data batch) with nothing kept. -/
+inductive ExtIn | none | ok | err
+  deriving DecidableEq, Repr
+
 structure Turn where
   emits : Nat          -- EmitMap calls the handler makes
   «end» : End
   bad : Bool           -- the f64 input of this turn is fractional
   brk : Bool := false     -- the peer goes away: writing this turn's output fails (pipe)
   capped : Bool := false  -- the external-storage cap refuses this turn's upload before the flush (HTTP)
+  unenc : Bool := false   -- the stream state cannot be serialized into the next cursor after this turn (HTTP exchange)
+  extIn : ExtIn := .none  -- this turn's input is an external-location pointer
   deriving Repr
 
 inductive Kind | prod | xch
@@ -89,6 +99,7 @@ structure Sizes where
   e : Nat    -- bytes of one EmitMap batch
   c : Nat    -- bytes of one cast batch
   w : Nat := 0   -- bytes of an external-location pointer wrapper (zero-length columns)
+  x : Nat := 0   -- bytes of an externally resolved input batch
   deriving Repr
 
 /-- What happens to a unary result on a server with external storage (`handleUnary`,
@@ -129,24 +140,40 @@ def turnFails (k : Kind) (t : Turn) : Bool :=
   decide (t.emits ≥ 2) || t.end == .err || t.end == .panic || (t.end == .fin && k == .xch)
 
 /-- the external cap refuses the cycle (`checkExternalBudget`): only when there is a data batch -/
-def turnCapped (t : Turn) : Bool := t.capped && decide (t.emits ≥ 1)
+def turnCapped (t : Turn) : Bool := (t.capped || t.unenc) && decide (t.emits ≥ 1)
+
+/-- The replacement input a turn owns while its handler runs: the cast batch if the input was cast
+(`releaseInput()` dropped the resolved batch when the cast replaced it), else the externally
+resolved batch, else nothing (the reader owns a plain input). -/
+def ownedInput (c : CastOutcome) (ei : ExtIn) (sz : Sizes) (i : Nat) : Ledger :=
+  if c = .ok then [(.cast i, sz.c)] else if ei = .ok then [(.extin i, sz.x)] else []
+
+def preEvents (c : CastOutcome) (ei : ExtIn) (sz : Sizes) (i : Nat) : List Ev :=
+  (if ei = .ok then [Ev.acq (.extin i) sz.x] else []) ++
+  (if c = .ok then Ev.acq (.cast i) sz.c :: (if ei = .ok then [Ev.rel (.extin i)] else []) else [])
+
+def postEvents (c : CastOutcome) (ei : ExtIn) (i : Nat) : List Ev :=
+  if c = .ok then [Ev.rel (.cast i)] else if ei = .ok then [Ev.rel (.extin i)] else []
 
 /-- Events of turn `i` and whether the stream goes on to the next turn. -/
 def turnEvents (k : Kind) (w : Wire) (sz : Sizes) (i : Nat) (t : Turn) : List Ev × Bool :=
   if t.end = .cancel then ([], false)                     -- cancel batch: break before anything
+  else if t.extIn = .err then ([], false)                 -- external resolve error batch, nothing kept
   else
     match castOf k w t.bad with
-    | .fail => ([], false)                                -- cast error batch, nothing was built
+    | .fail =>
+      -- cast error batch; a resolved external input is released by releaseInput()
+      (if t.extIn = .ok then [Ev.acq (.extin i) sz.x, Ev.rel (.extin i)] else [], false)
     | c =>
-      let pre := if c = .ok then [Ev.acq (.cast i) sz.c] else []
-      let post := if c = .ok then [Ev.rel (.cast i)] else []
+      let pre := preEvents c t.extIn sz i
+      let post := postEvents c t.extIn i
       let handler := Ev.sample :: emitEvents i sz.e t.emits
       let held := if t.emits ≥ 1 then [Ev.rel (.emit i 0)] else []
       if turnFails k t then
         -- streamErr: out.releaseBatches(); releaseInput(); break
         (pre ++ handler ++ held ++ post, false)
       else if turnCapped t then
-        -- cap refusal before the flush: out.releaseBatches(); cast released on return; stop
+        -- cap refusal / cursor not serializable, before the flush: out.releaseBatches(); stop
         (pre ++ handler ++ held ++ post, false)
       else if t.end = .fin then
         -- finished producer: flush what was emitted; break
@@ -173,6 +200,9 @@ inductive Call
   /-- `castRecordBatch` applied to an input whose buffers the framework allocated itself (what an
   externally resolved stream input is), then everything released: `sz.e` = the input batch. -/
   | castInput (w : Wire) (bad : Bool) (sz : Sizes)
+  /-- a unary call (on a server with external storage, the result is uploaded) whose REQUEST is an
+  external-location pointer: resolved (`ok`) or refused -/
+  | unaryIn (ok : Bool) (sz : Sizes)
   deriving Repr
 
 def callEvents : Call → List Ev
@@ -185,6 +215,11 @@ def callEvents : Call → List Ev
   -- wrapper — also when the post-flush check replaces the response by the cap error
   | .unaryExt _ sz => [.sample, .acq .result sz.r, .acq .wrapper sz.w, .rel .result, .rel .wrapper]
   | .stream k w sz turns => streamEvents k w sz 0 turns
+  | .unaryIn true sz =>
+    -- req.Batch is replaced by the resolved batch; the deferred release frees it after the result
+    [.acq (.extin 0) sz.x, .sample, .acq .result sz.r, .acq .wrapper sz.w, .rel .result, .rel .wrapper,
+     .rel (.extin 0)]
+  | .unaryIn false _ => []
   | .castInput w bad sz =>
     -- a failed cast releases the columns it had already cast; the input datum never outlives the call
     match castOf .xch w bad with
